@@ -408,6 +408,10 @@ func above[A p2p.Addr](w *World, spec []string, t tier[A]) []Endpoint {
 			t = muxOpen(w, t, kind, true, []any{defaultChan(kind, c)})[0]
 		case l == "map":
 			return above(w, spec, mapL(w, t))
+		case l == "mapudp":
+			return above(w, spec, mapUDPL(w, t))
+		case l == "mapssh":
+			return above(w, spec, mapSSHL(w, t))
 		default:
 			panic("unknown layer " + l)
 		}
